@@ -30,20 +30,28 @@ func (a *config) MergeSpoc(d deviceconf.Config) deviceconf.Config {
 					cName, tName)
 			}
 			top := 0
+			bottom := -1
 			for _, ru := range bChain.rules {
 				i := top
 				if ru.append {
-					// Append before last non DROP line.
-					i = len(aChain.rules)
-					for i > 0 {
-						if aChain.rules[i-1].pairs["-j"] == "DROP" {
-							i--
-						} else {
-							break
+					if bottom < 0 {
+						// Append before last DROP lines of chain from Netspoc.
+						bottom = len(aChain.rules)
+						for bottom > 0 {
+							if aChain.rules[bottom-1].pairs["-j"] == "DROP" {
+								bottom--
+							} else {
+								break
+							}
 						}
 					}
+					i = bottom
+					bottom++
 				} else {
 					top++
+					if bottom >= 0 {
+						bottom++
+					}
 				}
 				aChain.rules = slices.Insert(aChain.rules, i, ru)
 			}
